@@ -72,11 +72,65 @@ func registerGoLite(g glGroup) {
 type glStubImporter struct {
 	std  types.Importer
 	pkgs map[string]*types.Package
+	repo string         // repository root: its own packages are type-checked from source (third-party ones are stubs)
+	mod  string         // module path from go.mod
+	fset *token.FileSet
+}
+
+func glModulePath(repo string) string {
+	b, err := os.ReadFile(filepath.Join(repo, "go.mod"))
+	if err != nil {
+		return ""
+	}
+	for _, line := range strings.Split(string(b), "\n") {
+		if strings.HasPrefix(line, "module ") {
+			return strings.TrimSpace(strings.TrimPrefix(line, "module "))
+		}
+	}
+	return ""
+}
+
+// importOwn: a package of the repository itself, type-checked from source with this importer (errors about members of
+// stubbed third-party packages are expected and ignored)
+func (im *glStubImporter) importOwn(path string) *types.Package {
+	dir := filepath.Join(im.repo, strings.TrimPrefix(strings.TrimPrefix(path, im.mod), "/"))
+	ents, err := os.ReadDir(dir)
+	if err != nil {
+		return nil
+	}
+	var files []*ast.File
+	ctx := build.Default
+	for _, e := range ents {
+		n := e.Name()
+		if e.IsDir() || !strings.HasSuffix(n, ".go") || strings.HasSuffix(n, "_test.go") {
+			continue
+		}
+		if ok, _ := ctx.MatchFile(dir, n); !ok {
+			continue
+		}
+		f, err := parser.ParseFile(im.fset, filepath.Join(dir, n), nil, 0)
+		if err != nil {
+			return nil
+		}
+		files = append(files, f)
+	}
+	if len(files) == 0 {
+		return nil
+	}
+	conf := types.Config{Importer: im, Error: func(error) {}}
+	pkg, _ := conf.Check(path, im.fset, files, nil)
+	return pkg
 }
 
 func (im *glStubImporter) Import(path string) (*types.Package, error) {
 	if p, ok := im.pkgs[path]; ok {
 		return p, nil
+	}
+	if im.mod != "" && (path == im.mod || strings.HasPrefix(path, im.mod+"/")) {
+		if p := im.importOwn(path); p != nil {
+			im.pkgs[path] = p
+			return p, nil
+		}
 	}
 	if !strings.Contains(strings.Split(path, "/")[0], ".") { // standard library: type-check from source
 		if p, err := im.std.Import(path); err == nil {
@@ -150,7 +204,7 @@ func glLoad(repo, dir string) (*glPkg, error) {
 		Selections: map[*ast.SelectorExpr]*types.Selection{},
 	}
 	conf := types.Config{
-		Importer: &glStubImporter{std: importer.ForCompiler(fset, "source", nil), pkgs: map[string]*types.Package{}},
+		Importer: &glStubImporter{std: importer.ForCompiler(fset, "source", nil), pkgs: map[string]*types.Package{}, repo: repo, mod: glModulePath(repo), fset: fset},
 		Error:    func(error) {}, // third-party packages are stubs: errors about their members are expected
 	}
 	pkg, _ := conf.Check(dir, fset, files, info)
@@ -178,6 +232,7 @@ type glTr struct {
 	externs   map[string]bool
 	externOut map[string]int
 	recvPath  map[*ast.CallExpr][]string
+	externRecv map[string]bool
 	bindings  []string // what is passed for a function-typed (oracle) parameter at each call site
 }
 
@@ -278,7 +333,14 @@ func glTranslatePart(repo string, g glGroup) (defs string, names, lemmas []strin
 	}
 	t := &glTr{p: p, g: g, byObj: map[types.Object]*glFn{}, externs: map[string]bool{}}
 	t.externOut = map[string]int{}
+	t.externRecv = map[string]bool{}
 	for _, e := range g.externs {
+		if strings.HasSuffix(e, ":recv") {
+			e = strings.TrimSuffix(e, ":recv")
+			t.externRecv[e] = true
+			t.externs[e] = true
+			continue
+		}
 		if i := strings.Index(e, ":out"); i > 0 {
 			k := int(e[i+4] - '0')
 			e = e[:i]
@@ -1308,6 +1370,10 @@ func (t *glTr) callStmt(c *glCtx, x *ast.CallExpr, lhs []string) (string, int) {
 		if recvArg != "" {
 			as = append(as, recvArg)
 		}
+	} else if own := t.ownMethodName(x); own != "" && t.externs[own] {
+		// a method of a type of this package declared external (it touches the file system, say): an oracle named
+		// <Type>.<method>; the receiver is not passed
+		name = own
 	} else if sel, ok := x.Fun.(*ast.SelectorExpr); ok && name == "" && t.externs["*."+sel.Sel.Name] {
 		// a method of a value whose type belongs to a third-party package that is not type-checked here (an opaque
 		// value produced by another oracle): the oracle "*.<Method>" receives the value first
@@ -1332,6 +1398,14 @@ func (t *glTr) callStmt(c *glCtx, x *ast.CallExpr, lhs []string) (string, int) {
 		}
 	}
 	nl := len(l)
+	// an external method that writes through its receiver (declared "<name>:recv"): the receiver value is passed first
+	// and its new value is returned after the results
+	if t.externRecv[name] {
+		if sel, ok := x.Fun.(*ast.SelectorExpr); ok {
+			as = append([]string{t.expr(c, sel.X)}, as...)
+			l = append(append([]string{}, l...), t.lvalOf(c, sel.X))
+		}
+	}
 	// an external that writes through one of its arguments returns the new contents after its results
 	if k, ok := t.externOut[name]; ok {
 		if k >= len(x.Args) {
@@ -1340,6 +1414,26 @@ func (t *glTr) callStmt(c *glCtx, x *ast.CallExpr, lhs []string) (string, int) {
 		l = append(append([]string{}, l...), t.lvalOf(c, x.Args[k]))
 	}
 	return fmt.Sprintf("SCallExt [%s] %s [%s]", strings.Join(l, "; "), glStr(name), strings.Join(as, "; ")), nl
+}
+
+// ownMethodName: "<Type>.<method>" when x calls a method of a named type of this package ("" otherwise)
+func (t *glTr) ownMethodName(x *ast.CallExpr) string {
+	f, ok := x.Fun.(*ast.SelectorExpr)
+	if !ok {
+		return ""
+	}
+	sel, ok := t.p.info.Selections[f]
+	if !ok || sel.Kind() != types.MethodVal {
+		return ""
+	}
+	rt := sel.Recv()
+	if pt, ok := rt.(*types.Pointer); ok {
+		rt = pt.Elem()
+	}
+	if nt, ok := rt.(*types.Named); ok && nt.Obj().Pkg() == t.p.pkg {
+		return nt.Obj().Name() + "." + f.Sel.Name
+	}
+	return ""
 }
 
 // ifaceMethod: x is a call  recv.M(...)  where recv has an interface type: returns "<iface>.<M>" and, when recv is
